@@ -16,7 +16,7 @@ import (
 // for center, with left/right mapped to start/end by the direction (CSS Text 3 §7.1), and 0 when the line overflows.
 func c11TextAlign(c *core.Check) {
 	p := c.Prog
-	r := c.Rule("R6", "layout.textAlign, folded for the 6 text-align values × ltr/rtl × last line or not (with the 7 text-align-last values) × line overflowing or not: the offset returned is 0 when the line overflows, 0 for start and justify, available − line width for end, half of that for center; left and right are start and end under ltr and the reverse under rtl; on the last line text-align-last replaces text-align unless it is auto", 60)
+	r := c.Rule("R6", "layout.textAlign, folded for the 6 text-align values × ltr/rtl × last line or not (with the 7 text-align-last values) × line overflowing or not: the offset returned is 0 when the line overflows, 0 for start and justify, available − line width for end, half of that for center; left and right are start and end under ltr and the reverse under rtl; on the last line text-align-last replaces text-align unless it is auto", 172)
 	fn := p.Fn("html/layout", "textAlign")
 	pk := p.ByPath["html/boxes"]
 	if fn == nil || pk == nil || pk.Types.Scope().Lookup("BoxFields") == nil {
